@@ -6,7 +6,7 @@
 From PV Require Import Base.Prelude Wire.SeqSet.
 From PV Require Import UidRecent.Model UidRecent.MapLemmas UidRecent.UidProofs
   UidRecent.RecentInv UidRecent.RecentProofs UidRecent.RecentTrace UidRecent.Witness
-  UidRecent.Maildir UidRecent.MaildirProofs.
+  UidRecent.Maildir UidRecent.MaildirProofs UidRecent.Drop UidRecent.DropProofs.
 
 Local Open Scope N_scope.
 
@@ -199,3 +199,127 @@ Theorem C17_maildir_claim_refines : forall d,
   abs (md_claim d) = mkBox (b_max (abs d)) (map clear_recent (b_msgs (abs d))) (b_log (abs d)).
 Proof. exact abs_claim. Qed.
 Print Assumptions C17_maildir_claim_refines.
+
+(* ------------------------------------------------- the end of a connection
+   UidRecent/Drop.v: [Drop s k] = connection [s] ends in way [k] (LOGOUT, EOF,
+   reset, over-long line, read error, cancellation while reading / idling /
+   draining, EOF inside a literal, too many BAD commands, an exception in a
+   command body, a failing write).  IMAPConnection.run() deselects in a
+   `finally`, so for every kind - whether _run_state() returns or an exception
+   or a CancelledError escapes it ([exit_of]) - the connection holds no
+   selection afterwards. *)
+Theorem C17_end_no_selection : forall st s k ch,
+  lookup s (sess (fst (xstep st (Drop s k) ch))) = None.
+Proof. exact end_no_selection. Qed.
+Print Assumptions C17_end_no_selection.
+
+(* ... nothing else changes: stored bits, the hand-out log, the names and
+   everybody else's selection *)
+Theorem C17_end_frame : forall st s k ch,
+  let st' := fst (xstep st (Drop s k) ch) in
+  boxes st' = boxes st /\ held st' = held st /\ names st' = names st /\
+  cfg_shared st' = cfg_shared st /\
+  forall t, t <> s -> lookup t (sess st') = lookup t (sess st).
+Proof. exact end_frame. Qed.
+Print Assumptions C17_end_frame.
+
+(* the ended connection is no candidate of any_selected for any mailbox, and
+   no delivery by anybody else can be credited to it *)
+Theorem C17_end_not_candidate : forall st s k ch i,
+  ~ In s (candidates (fst (xstep st (Drop s k) ch)) i).
+Proof. exact end_not_candidate. Qed.
+Print Assumptions C17_end_not_candidate.
+
+Theorem C17_end_not_picked : forall st s k ch t i c,
+  NoDup (map fst (sess st)) -> t <> s ->
+  pick_ok (fst (xstep st (Drop s k) ch)) t i c = true -> c <> Some s.
+Proof. exact end_not_picked. Qed.
+Print Assumptions C17_end_not_picked.
+
+(* the holder of the only read-write selection of mailbox [i] ends, in any
+   way: the next delivery into [i] can be credited to nobody and is stored
+   with the bit set (then C17_stored_recent_survives / C17_first_rw_select_claims
+   apply: the next read-write SELECT is told about it) *)
+Theorem C17_end_then_arrival_stored : forall st s k ch t i c dl mk b,
+  NoDup (map fst (sess st)) -> cfg_shared st = true ->
+  (forall x, In x (candidates st i) -> x = s) ->
+  let st' := fst (xstep st (Drop s k) ch) in
+  pick_ok st' t i c = true -> lookup i (boxes st') = Some b ->
+  c = None /\
+  exists b', lookup i (boxes (fst (deliver i c dl mk st'))) = Some b' /\
+             In (mkMsg (b_max b + 1) true dl mk) (b_msgs b').
+Proof. exact end_then_arrival_stored. Qed.
+Print Assumptions C17_end_then_arrival_stored.
+
+(* histories of operations and ends of every kind: the invariant, Inv_recent
+   and "shown to one SELECT instance" hold in every reachable state *)
+Theorem C17_inv_reachable_with_ends : forall base shared (tr : list (xop * choice)),
+  full (xrun (init_cfg base shared) tr).
+Proof. exact xfull_reachable. Qed.
+Print Assumptions C17_inv_reachable_with_ends.
+
+Theorem C17_inv_recent_with_ends : forall base shared tr i u,
+  let st := xrun (init_cfg base shared) tr in
+  (length (holders st i u) + stored_bit st i u <= 1)%nat.
+Proof. exact xinv_recent_reachable. Qed.
+Print Assumptions C17_inv_recent_with_ends.
+
+Theorem C17_reported_to_one_selection_with_ends : forall base shared tr0 tr s1 sl1 s2 sl2 u,
+  let st1 := xrun (init_cfg base shared) tr0 in
+  lookup s1 (sess st1) = Some sl1 -> In u (s_recent sl1) ->
+  lookup s2 (sess (xrun st1 tr)) = Some sl2 -> In u (s_recent sl2) ->
+  s_bid sl1 = s_bid sl2 ->
+  s_inst sl1 = s_inst sl2 /\ s_ro sl1 = false /\ s_ro sl2 = false.
+Proof. exact xreported_reachable. Qed.
+Print Assumptions C17_reported_to_one_selection_with_ends.
+
+(* the arrival clause over histories with ends: no end of any kind consumes a
+   stored bit; the first read-write SELECT afterwards claims it *)
+Theorem C17_arrival_claimed_with_ends : forall i tr st b m s nm ch b' m',
+  full st -> xno_rw_select i st tr ->
+  lookup i (boxes st) = Some b -> In m (b_msgs b) -> m_recent m = true ->
+  find_box (xrun st tr) nm = Some (i, b') -> box_ro (xrun st tr) i = false ->
+  In m' (b_msgs b') -> m_uid m' = m_uid m ->
+  let st2 := fst (step (xrun st tr) (Select s nm false) ch) in
+  exists sl' b2,
+    snd (step (xrun st tr) (Select s nm false) ch)
+      = OSelect i false (nlen (b_msgs b')) (nlen (stored_recent b')) (b_max b' + 1) /\
+    lookup s (sess st2) = Some sl' /\ s_ro sl' = false /\ s_bid sl' = i /\
+    In (m_uid m) (s_recent sl') /\ In (m_uid m) (s_view sl') /\
+    (0 < nlen (stored_recent b')) /\
+    lookup i (boxes st2) = Some b2 /\ forall x, In x (b_msgs b2) -> m_recent x = false.
+Proof. exact xarrival_claimed_by_first_rw_select. Qed.
+Print Assumptions C17_arrival_claimed_with_ends.
+
+Theorem C17_ends_are_no_rw_select : forall i st s k ch r,
+  xno_rw_select i (fst (xstep st (Drop s k) ch)) r -> xno_rw_select i st ((Drop s k, ch) :: r).
+Proof. exact xno_rw_select_ends. Qed.
+Print Assumptions C17_ends_are_no_rw_select.
+
+(* the kinds after which only the `finally` of run() can deselect: an
+   exception or a cancellation escapes the command loop *)
+Theorem C17_escaping_kinds : forall k,
+  exit_of k <> XReturn <->
+  In k [ELineLimit; EReadError; ECmdExc; EWriteError; ECancelWrite].
+Proof. exact escaping_kinds. Qed.
+Print Assumptions C17_escaping_kinds.
+
+(* seeded C17-7 as an execution: A selects, ends by an over-long line
+   (BYE [SERVERBUG], exception escapes), C appends, D selects: RECENT 1; with
+   the selection still in place "nobody" would not be an allowed pick and the
+   dead connection would be the only one *)
+Theorem C17_end_witness : xouts w_end_history =
+  [ XOut (OSelect 0 false 0 0 101);
+    XEnd FServerBug XException;
+    XOut (OAppend 0 [49; 48; 49] PNone);
+    XOut (OSelect 0 false 1 1 102) ].
+Proof. exact w_end_outs. Qed.
+Print Assumptions C17_end_witness.
+
+Theorem C17_end_kept_selection_refuted :
+  let st := xrun init [(XOp (Select 0 0 false), mkChoice None)] in
+  pick_ok st 2 0 None = false /\ pick_ok st 2 0 (Some 0) = true /\
+  pick_ok (fst (xstep st (Drop 0 ELineLimit) (mkChoice None))) 2 0 None = true /\
+  pick_ok (fst (xstep st (Drop 0 ELineLimit) (mkChoice None))) 2 0 (Some 0) = false.
+Proof. exact w_end_kept_refuted. Qed.
+Print Assumptions C17_end_kept_selection_refuted.
